@@ -15,7 +15,7 @@ CLAIMED = {
  "C13": dict(level="exploration", design="5 C13",
    technique="property-based testing: metamorphic pair relation (option on vs off) over generated sources classified by final state",
    text="Each generated project is built twice in the same root, with the trailing-newline option on and off; verdicts, file sets, temp files and outputs are related pairwise (equal or one final line ending apart; exact form when the source ends in an ordinary line). Covers every final-state class x LF/CRLF that one fixture cannot.",
-   note="Sources that include another source's output are skipped for the byte relation (the included file itself legitimately changes); final-state classes come from the reference grammar."),
+   note="For sources with dependencies only the end of the file is judged (an included or cat-ed dependency output legitimately changes in the middle); final-state classes come from the reference grammar."),
  "C14": dict(level="exploration", design="5 C14",
    technique="bounded-exhaustive differential testing of the tag store against a list model (4 fresh stores per scenario) + generated whole files against the reference model, built twice",
    text="All tag-name sequences of size <=3 over a two-letter alphabet (equal, prefix-related, overlapping), x stored contents x every target line up to length 6/7 are driven through the real TagState and a list-based model; every return value and string is compared and each scenario repeated on fresh hash maps. Tag-heavy generated files cover create/store/use orders and the documented error orders end to end. Exhaustive within the stated bound, exploration beyond.",
@@ -34,7 +34,7 @@ CLAIMED = {
    note="Assumes the serialising controller's order space covers the coordinator's behaviours (argued in DESIGN 4.4); overlapping execution is sampled only."),
  "C03": dict(level="exploration", design="5 C03, 4.4",
    technique="schedule exploration (exhaustive DFS over completion orders for all digraphs on <=3 files x alias/duplicate/directory inputs, sampled beyond) with logical deadlock detection, execution-counter markers and trace counts",
-   text="Termination is decided logically at the coordinator's idle poll (no task outstanding, nothing can arrive) rather than by a clock; exactly-once completion is checked by per-command marker files and by counting first/second passes per file in the hook trace, under every completion order of the enumerated scope and for inputs that name the same file or directory several ways.",
+   text="Termination is decided logically at the coordinator's idle poll (no task outstanding, nothing can arrive) rather than by a clock; exactly-once completion is checked by per-command marker files and by counting first/second passes per file in the hook trace, under every completion order of the enumerated scope and for inputs that name the same file or directory several ways; a last tier requires that runs in which one file fails return as well.",
    note="A loop inside a worker task would only be caught by the orchestrator's 60 s isolated double replay (then reported as violation because the statement says the run terminates)."),
  "C05": dict(level="exploration", design="5 C05, 4.4",
    technique="schedule exploration: all 530 digraphs with self-loops on <=3 files x requested subsets x all completion orders (DFS), sampled 4-7 files; oracle = cycle reachability computed on the graph, reference model for bystanders, logical deadlock detection",
@@ -42,7 +42,7 @@ CLAIMED = {
    note="Same controller assumptions as C02."),
  "C06": dict(level="exploration", design="5 C06",
    technique="property-based testing with a same-root differential oracle (verify vs. a fresh build), single-point tampering operators, snapshot-based read-only check",
-   text="Generated successful projects are built, then changed at one point (byte flip/insert/delete at first/middle/last, append, every truncation class, deletion, prefix-extension, option mismatch, source edit); verify must pass iff every output of the verified closure equals what a build with the same options writes now, and must leave every output path untouched (bytes, inode, mtime).",
+   text="Generated successful projects are built, then changed at one point (byte flip/insert/delete at first/middle/last, append, every truncation class, deletion, prefix-extension, option mismatch, source edit), with file times equal or sources newer / older than outputs; verify must pass iff every output of the verified closure equals what a build with the same options writes now, and must leave every output path untouched (bytes, inode, mtime).",
    note="The closure is taken from the hook trace of the reference build; builds are deterministic for the command vocabulary."),
  "C07": dict(level="exploration", design="5 C07",
    technique="property-based testing over build/clean histories with whole-tree snapshots and execution-counter markers",
@@ -58,7 +58,7 @@ CLAIMED = {
    note="Projects where two directives write the same temp target are excluded."),
  "C10": dict(level="exploration", design="5 C10",
    technique="property-based testing: whole-tree snapshot diff (bytes, inode, mtime) against the allowed write set, over modes x inputs x decoys",
-   text="Across all four modes, successful and failing projects, decoy and near-miss file names, the set of created/deleted/modified/touched paths must be contained in the outputs and temp targets of the sources the run may process; verify must not touch outputs; clean must create nothing.",
+   text="Across all four modes, successful and failing projects (also: built successfully, then broken), decoy and near-miss file names, the set of created/deleted/modified/touched paths must be contained in the outputs and temp targets of the sources the run may process; verify must not touch outputs; clean must create nothing.",
    note="The may-process set comes from the input-resolution model that C11 validates."),
  "C11": dict(level="exploration", design="5 C11",
    technique="property-based testing against an independent input-resolution and naming model; created-output set and per-source execution counters",
